@@ -61,6 +61,11 @@ IsUnimplemented(v) == v.ty = "unimplementedError"
 CodeOf(v, ty) == LET c == Chain(v) idx == {i \in 1..Len(c) : c[i].ty = ty} IN
                  IF idx = {} THEN <<>> ELSE c[CHOOSE i \in idx : \A j \in idx : i <= j].a[1]
 
+\* HasType walks the single-cause chain: the catalogue types of its layers (the
+\* harness asks for every type it has a sample of)
+SampledTy == AllTy \ ({"opaqueErrno", "runtimeErr", "gogoStatus", "decoded", "netOpError"} \cup OpaqueTy)
+HasTypes(v) == {Chain(v)[i].ty : i \in 1..Len(Chain(v))} \cap SampledTy
+
 \* The accessor part of the projection.
 Acc(v) ==
   [hints |-> Hints(v), details |-> Details(v),
@@ -69,5 +74,5 @@ Acc(v) ==
    hasAssert |-> HasAssertionFailure(v), isAssert |-> IsAssertionFailure(v),
    hasLink |-> HasIssueLink(v), isLink |-> IsIssueLink(v),
    hasUnimpl |-> HasUnimplemented(v), isUnimpl |-> IsUnimplemented(v),
-   http |-> CodeOf(v, "withHTTPCode"), grpc |-> CodeOf(v, "withGrpcCode")]
+   http |-> CodeOf(v, "withHTTPCode"), grpc |-> CodeOf(v, "withGrpcCode"), hastype |-> HasTypes(v)]
 =============================================================================
